@@ -40,6 +40,9 @@ __CPROVER_assigns(*tlv);
 /* exactly one element and nothing else: accepted iff the element's size is the whole input */
 int KSI_TLV_parseBlob2(KSI_CTX *ctx, unsigned char *data, size_t data_length, int ownMemory, KSI_TLV **tlv)
 __CPROVER_requires(ctx != NULL)
+#ifdef TLV_ALLOC_OK
+__CPROVER_requires(data_length <= TLV_MAX_INPUT)
+#endif
 __CPROVER_requires(__CPROVER_is_fresh(data, data_length))
 __CPROVER_requires(__CPROVER_is_fresh(tlv, sizeof(*tlv)))
 __CPROVER_ensures(IMPLIES(__CPROVER_return_value == KSI_OK,
